@@ -24,6 +24,12 @@ async def expect_async(expecter, timeout=None):
     idx = expecter.existing_data()
     if idx is not None:
         return idx
+    if expecter.spawn.closed or (expecter.spawn.async_pw_transport
+                                 and expecter.spawn.child_fd == -1):
+        # The descriptor has been released.  A transport kept from an earlier
+        # call still holds its number, which may be somebody else's by now:
+        # fail like the blocking call does instead of reading from it.
+        raise ValueError('I/O operation on closed file.')
     if not expecter.spawn.async_pw_transport:
         pattern_waiter = PatternWaiter()
         pattern_waiter.set_expecter(expecter)
